@@ -1781,12 +1781,13 @@ def ignore_comments(string):
 
     comments = [
         (mo.start(), mo.group(0))
-        for mo in re.finditer(r'(/\*|\*/|--|\n)', string)
+        for mo in re.finditer(r'(/\*|\*/|--|\n|")', string)
     ]
 
     comments.sort()
 
     in_single_line_comment = False
+    in_string = False
     multi_line_comment_depth = 0
     start_offset = 0
     non_comment_offset = 0
@@ -1810,8 +1811,18 @@ def ignore_comments(string):
 
                 if multi_line_comment_depth == 0:
                     offset += 2
-                    chunks.append(' ' * (offset - start_offset))
+                    # Keep the newlines for correct line numbers in
+                    # error messages.
+                    chunks.append(re.sub(r'[^\n]',
+                                         ' ',
+                                         string[start_offset:offset]))
                     non_comment_offset = offset
+        elif in_string:
+            # Comment markers in character strings are not comments.
+            if kind == '"':
+                in_string = False
+        elif kind == '"':
+            in_string = True
         elif kind == '--':
             in_single_line_comment = True
             start_offset = offset
